@@ -32,7 +32,7 @@ Rev(s) == [i \in DOMAIN s |-> s[Len(s) + 1 - i]]
 IndexesFor(ls) ==
     IF IndexMode = "built" THEN {<<<<>>, "built">>}
     ELSE {<<<<>>, "built">>} \cup
-         {<<x, src>> : x \in {Ident(Len(ls)), Rev(Ident(Len(ls)))} \cup
+         {<<x, src>> : x \in {<<>>, Ident(Len(ls)), Rev(Ident(Len(ls)))} \cup
                             (IF Len(ls) >= 2 THEN {<<Len(ls), 1>>, <<2>>} ELSE {}), src \in {"list", "file"}}
 Gets == (0 - MaxLines - 1)..MaxLines
 Bounds == {None, -2, -1, 0, 1, 3}
@@ -65,7 +65,11 @@ IterNext(o) == /\ built /\ o.j \in DOMAIN its /\ UNCHANGED <<built, conf, L>>
                     THEN its' = [its EXCEPT ![o.j] = its[o.j] + 1] /\ cursor' = pos + 1 /\ Ret(o, <<At(L, pos)>>)
                     ELSE its' = [its EXCEPT ![o.j] = N] /\ cursor' = cursor /\ Ret(o, <<>>)
 
+\* close() followed by open() (or leaving and re-entering the with-block): the object is the same list of lines afterwards
+Reopen(o) == built /\ UNCHANGED vars /\ Ret(o, <<>>)
+
 Apply(o) ==
+    \/ o.op = "reopen" /\ Reopen(o)
     \/ o.op = "new" /\ New(o)
     \/ o.op = "len" /\ LenOp(o)
     \/ o.op = "get" /\ Get(o)
@@ -77,7 +81,7 @@ Apply(o) ==
 Next ==
     \/ \E c \in Contents : \E x \in IndexesFor(c[1]) :
           /\ Apply([op |-> "new", lines |-> c[1], term |-> c[2], idx |-> x[1], src |-> x[2]])
-    \/ Apply([op |-> "len"]) \/ Apply([op |-> "list"]) \/ Apply([op |-> "iter_new"])
+    \/ Apply([op |-> "len"]) \/ Apply([op |-> "list"]) \/ Apply([op |-> "iter_new"]) \/ Apply([op |-> "reopen"])
     \/ \E i \in Gets : i >= -N - 1 /\ i <= N /\ Apply([op |-> "get", i |-> i])
     \/ its = <<>> /\ \E s \in Slices : Apply([op |-> "slice", a |-> s[1], b |-> s[2], c |-> s[3]])
     \/ \E m \in ManysFor(N) : Apply([op |-> "many", is |-> m])
